@@ -48,28 +48,86 @@ def containment_rules(eng: Engine, ck: Check, rule: str):
               (isinstance(x, ast.Call) and False)]
         ins = [n for n in walk_with_lambdas(f.node) if isinstance(n, ast.Compare) and isinstance(n.ops[0], (ast.In, ast.NotIn)) and 'path' in unparse(n)]
         cp = [x for x in calls_in(f.node) if unparse(x.func) in ('os.path.commonpath',) or call_name(x) in ('is_relative_to',)]
+        # os.path.commonprefix is element-wise on whatever sequences it is given: on STRINGS it is a character prefix, on LISTS OF COMPONENTS
+        # (each path split at the separator) it is the component-wise common part
+        comp_prefix = {}
+        for x in calls_in(f.node):
+            if unparse(x.func) != 'os.path.commonprefix' or not x.args:
+                continue
+            paths = component_lists(f, x.args[0])
+            if paths is None:
+                sw.append(x)
+            else:
+                comp_prefix[x] = paths
+                cp.append(x)
         ck.ob(rule, f, f.node, f'{qn}: "is inside" is decided on path components (os.path.commonpath / is_relative_to), never on a string prefix', bool(cp) and not sw and not ins,
               f'string test `{unparse((sw + ins)[0])}`: /music/Rock is a string prefix of "/music/Rock Classics" without containing it' if (sw or ins) else 'no component-wise test found',
               construct=f'{qn} component-wise')
         for x in cp:
             cmpn = parent(x)
-            ok = isinstance(cmpn, ast.Compare) and isinstance(cmpn.ops[0], ast.Eq)
-            if ok and unparse(x.func) == 'os.path.commonpath':
-                elts = [unparse(e) for e in x.args[0].elts] if isinstance(x.args[0], ast.List) else []
-                other = unparse(cmpn.comparators[0])
-                ok = other in elts
+            elts = None
+            if unparse(x.func) == 'os.path.commonpath':
+                a0 = expand_aliases(f, x.args[0])
+                elts = [unparse(e) for e in a0.elts] if isinstance(a0, ast.List) else []
+            elif x in comp_prefix:
+                elts = comp_prefix[x]
+                st_ = enclosing_stmt(x)
+                if isinstance(st_, ast.Assign) and len(st_.targets) == 1 and isinstance(st_.targets[0], ast.Name) and st_.value is x:
+                    # the common part is named; the decision is the comparison that reads it
+                    users = [n for n in walk_local(f.node) if isinstance(n, ast.Compare) and mentions_name(n.left, st_.targets[0].id)]
+                    cmpn = users[0] if len(users) == 1 else None
+            ok = isinstance(cmpn, ast.Compare) and len(cmpn.ops) == 1 and isinstance(cmpn.ops[0], ast.Eq)
+            if ok and elts is not None:
+                def full(src: str) -> str:
+                    return unparse(expand_aliases(f, ast.parse(src, mode='eval').body))
+                elts = [full(e_) for e_ in elts]
+                other = full(unparse(cmpn.comparators[0]))
                 prm = [p_ for p_ in f.params if p_ != 'self'][0]
                 arg_side = [e_ for e_ in elts if e_ != 'self.absolute_path']
                 if qn.endswith('is_parent_of'):
                     base = 'self.absolute_path'
                 elif qn.endswith('is_child_of'):
                     # the would-be ancestor is the argument's path (a local derived from the parameter)
-                    base = arg_side[0] if len(arg_side) == 1 and mentions_name(expand_aliases(f, ast.parse(arg_side[0], mode='eval').body), prm) else '?'
+                    base = arg_side[0] if len(arg_side) == 1 and mentions_name(ast.parse(arg_side[0], mode='eval').body, prm) else '?'
                 else:
                     base = f'{prm}.absolute_path'
-                ok = ok and other == base and len(elts) == 2
-            ck.ob(rule, f, x, f'{qn}: commonpath([a, b]) == the would-be ancestor', ok, unparse(cmpn)[:90], construct=f'{qn} compares with ancestor')
+                ok = other in elts and other == base and len(elts) == 2
+            ck.ob(rule, f, x, f'{qn}: commonpath([a, b]) == the would-be ancestor', ok, unparse(cmpn)[:90] if cmpn is not None else 'no single comparison reads the common part',
+                  construct=f'{qn} compares with ancestor')
 
+
+def component_lists(f: FuncInfo, arg: ast.AST) -> Optional[list[str]]:
+    """When `arg` is a list of paths each SPLIT INTO COMPONENTS (`[p.split(os.sep) .. for p in [a, b]]`, `[a.split(os.sep), b.split(os.sep)]`;
+    a root marker may be put in front, empty / '.' components may be filtered): the source text of the paths.  None when the elements are
+    (or may be) plain strings."""
+    def is_list(e: ast.AST) -> bool:
+        if isinstance(e, (ast.List, ast.ListComp, ast.Tuple)):
+            return True
+        if isinstance(e, ast.BinOp) and isinstance(e.op, ast.Add):
+            return is_list(e.left) and is_list(e.right)
+        if isinstance(e, ast.Call) and call_name(e) in ('split', 'list', 'tuple', 'sorted'):
+            return True
+        return isinstance(e, ast.Attribute) and e.attr == 'parts'
+
+    def split_subjects(e: ast.AST) -> set[str]:
+        out = set()
+        for n in ast.walk(e):
+            if isinstance(n, ast.Call) and call_name(n) == 'split' and isinstance(n.func, ast.Attribute) and len(n.args) == 1 and \
+                    unparse(n.args[0]) in ('os.sep', 'os.path.sep', "'/'"):
+                out.add(unparse(n.func.value))
+            if isinstance(n, ast.Attribute) and n.attr == 'parts':
+                out.add(unparse(n.value))
+        return out
+    a = expand_aliases(f, arg)
+    if isinstance(a, ast.ListComp) and len(a.generators) == 1 and isinstance(a.generators[0].target, ast.Name) and not a.generators[0].ifs:
+        g = a.generators[0]
+        src = expand_aliases(f, g.iter)
+        if is_list(a.elt) and split_subjects(a.elt) == {g.target.id} and isinstance(src, (ast.List, ast.Tuple)):
+            return [unparse(e) for e in src.elts]
+        return None
+    if isinstance(a, (ast.List, ast.Tuple)) and a.elts and all(is_list(e) and len(split_subjects(e)) == 1 for e in a.elts):
+        return [next(iter(split_subjects(e))) for e in a.elts]
+    return None
 
 
 def run(eng: Engine, ck: Check):
